@@ -240,7 +240,8 @@ def _get_convolve_params(data_shape, filt_shape, mode, strides, multi_channel):
             )
 
         p = tuple(
-            (m_d - n_d + 1 + s_d - 1) // s_d for m_d, n_d, s_d in zip(m, n, s)
+            (abs(m_d - n_d) + 1 + s_d - 1) // s_d
+            for m_d, n_d, s_d in zip(m, n, s)
         )
     else:
         raise ValueError("Invalid mode, got {}".format(mode))
